@@ -111,9 +111,6 @@ func main() {
 	}
 	fmt.Printf("# %s %s: loaded %d repository packages in %.1fs, SSA %.1fs\n", prop, tier, len(p.Roots), p.LoadSecs, p.SSASecs)
 	if tier == "thorough" && only == nil {
-		// deeper: reachability (confinement, crash sites, wrap chains, map-order scopes) is computed on the
-		// whole-program VTA graph, which resolves callbacks made by dependencies (bstream handlers, errgroup, dstore walks)
-		p.WholeCG = true
 		p.Thorough = true
 	}
 	r := core.NewReport(prop)
